@@ -212,7 +212,11 @@ func (r *Run) Violation(sig, what string, witness any) bool {
 	r.vioSeen[sig] = true
 	n := len(r.vioSeen)
 	_ = os.MkdirAll(filepath.Join(verifDir, "replays"), 0o755)
-	path := filepath.Join(verifDir, "replays", fmt.Sprintf("%s-%s-s%d-%d.json", r.ID, r.tier, r.seed, n))
+	suffix := ""
+	if os.Getenv("VERIF_REPLAY") != "" {
+		suffix = "-replayed" // never overwrite the file that is being replayed
+	}
+	path := filepath.Join(verifDir, "replays", fmt.Sprintf("%s-%s-s%d-%d%s.json", r.ID, r.tier, r.seed, n, suffix))
 	doc := map[string]any{
 		"property": r.ID, "sig": sig, "what": what, "tier": r.tier, "seed": r.seed, "witness": witness,
 	}
